@@ -493,6 +493,7 @@ func handshakeCase(t *rapid.T, tr string, dial bool) {
 	stats.Class("hs:role:" + roleName(dial))
 	stats.Class(fmt.Sprintf("proto:%#x", info.self))
 	for _, d := range devs {
+		stats.Eval() // every deviation is an executed probe
 		stats.Class("dev:" + d.Kind)
 		stats.NonTrivial(fmt.Sprintf("hs|%s|%v|%s|%s|%d|%s", tr, dial, ctor, d.Kind, d.Pos, d.Bytes))
 	}
@@ -916,6 +917,7 @@ func messagesCase(t *rapid.T, tr string, dial bool) {
 		stats.Class("msg:cooked")
 	}
 	for _, x := range steps {
+		stats.Eval() // every transfer is an executed probe
 		hdr := isRaw(ctor) && x.HLen > 0 && x.Dir == "out"
 		if hdr {
 			stats.Class("msg:nonempty-header")
@@ -1078,6 +1080,7 @@ func subprotoListenCase(t *rapid.T, tr string) {
 	stats.Class("sub:role:listen")
 	stats.Class(fmt.Sprintf("proto:%#x", info.self))
 	for _, o := range offers {
+		stats.Eval() // every offer is an executed probe
 		stats.Class("offer:" + o.Kind)
 		stats.NonTrivial(fmt.Sprintf("sub|%s|listen|%s|%s|%q", tr, ctor, o.Kind, o.List))
 	}
